@@ -1,21 +1,225 @@
-"""setup_cmd: verifies the reference models against themselves and against golden vectors. Exit 0 when sane."""
+"""
+setup_cmd: verifies the reference models against themselves and against golden vectors, and prints the
+diff between the two independent transcriptions of the opcode table. Exit 0 when sane.
+
+  decoder o reference-encoder = identity over the whole intent space
+  tape parser o tape writer   = identity over the writer's parameter space
+  disk reader o disk writer   = identity, and fsck accepts every written image
+"""
+import itertools
 import sys
 
+from . import containers as C
+from .ref import dskfs, tape
 from .ref import m6809 as R
 
 
-def main():
+def ref_encode(mnem, it):
+    """straightforward datasheet encoder used only to validate the decoder and classify()"""
+    modes = R.MNEM[mnem]
+
+    def opc(mode):
+        o = modes[mode]
+        return bytes([o >> 8, o & 0xFF]) if o > 0xFF else bytes([o])
+    f = it["form"]
+    v = it.get("value")
+    if f == "inh":
+        return opc("INH")
+    if f == "imm":
+        return opc("IMM8") + bytes([v & 0xFF]) if "IMM8" in modes else opc("IMM16") + (v & 0xFFFF).to_bytes(2, "big")
+    if f == "dir":
+        return opc("DIR") + bytes([v & 0xFF])
+    if f in ("ext", "addr"):
+        return opc("EXT") + v.to_bytes(2, "big")
+    if f == "extind":
+        return opc("IDX") + b"\x9F" + v.to_bytes(2, "big")
+    if f == "pcr":
+        ind = 0x10 if it.get("indirect") else 0
+        s = v if v < 32768 else v - 65536
+        if -128 <= s <= 127:
+            return opc("IDX") + bytes([0x8C | ind, s & 0xFF])
+        return opc("IDX") + bytes([0x8D | ind]) + (s & 0xFFFF).to_bytes(2, "big")
+    if f == "idx":
+        rr = "XYUS".index(it["reg"]) << 5
+        ind = 0x10 if it.get("indirect") else 0
+        sub = it["sub"]
+        if sub == "zero":
+            return opc("IDX") + bytes([0x84 | rr | ind])
+        if sub == "acc":
+            return opc("IDX") + bytes([{"A": 0x86, "B": 0x85, "D": 0x8B}[it["acc"]] | rr | ind])
+        if sub in ("inc1", "inc2", "dec1", "dec2"):
+            return opc("IDX") + bytes([{"inc1": 0x80, "inc2": 0x81, "dec1": 0x82, "dec2": 0x83}[sub] | rr | ind])
+        s = v if v < 32768 else v - 65536
+        if -16 <= s <= 15 and not ind:
+            return opc("IDX") + bytes([rr | (s & 0x1F)])
+        if -128 <= s <= 127:
+            return opc("IDX") + bytes([0x88 | rr | ind, s & 0xFF])
+        return opc("IDX") + bytes([0x89 | rr | ind]) + (s & 0xFFFF).to_bytes(2, "big")
+    if f == "reglist":
+        other = "S" if mnem in ("PSHU", "PULU") else "U"
+        m = 0
+        for r in it["regs"]:
+            m |= 0x06 if r == "D" else 0x40 if r == other else R.LIST_BITS[r]
+        return opc("REGLIST") + bytes([m])
+    if f == "regpair":
+        return opc("REGPAIR") + bytes([R.PAIR_CODE[it["regs"][0]] << 4 | R.PAIR_CODE[it["regs"][1]]])
+    raise ValueError(f)
+
+
+def check_decoder():
+    from .checks import c01
     n = 0
-    # golden vectors: README listing
-    gold = [("JSR", "BDA928"), ("LDX", "8E0E11"), ("LDA", "A680"), ("CMPA", "8100"), ("BEQ", "2712"), ("JSR", "BDA30A"),
-            ("BRA", "20F5"), ("JSR", "AD9FA000"), ("BEQ", "27FA"), ("JMP", "7EA027"), ("LEAX", "308C10"), ("LDY", "10AE8DFF00"),
-            ("PSHS", "3406"), ("TFR", "1F12"), ("LBRA", "16FFFD"), ("LBEQ", "1027FFFC"), ("SWI2", "103F"), ("CMPS", "118C1234")]
-    for mnem, hx in gold:
+    for mnem in R.ALL_MNEMONICS:
+        modes = R.MNEM[mnem]
+        if "REL8" in modes or "REL16" in modes:
+            continue
+        sks = []
+        if "REGLIST" in modes:
+            sks = [{"form": "reglist", "regs": regs} for m2, regs, _ in c01.gen_reglists() if m2 == mnem]
+        elif "REGPAIR" in modes:
+            sks = [{"form": "regpair", "regs": [a, b]} for a in R.PAIR_CODE for b in R.PAIR_CODE]
+        else:
+            sks = c01.row_forms(mnem)
+        for sk in sks:
+            vals = c01.V16 if c01.needs_value(sk) else [None]
+            for v in vals:
+                it = dict(sk)
+                if v is not None:
+                    it["value"] = v
+                cls, acc = R.classify(mnem, it)
+                if cls != "valid":
+                    continue
+                b = ref_encode(mnem, it)
+                rec, why = R.check_statement_bytes(mnem, b, 0x1000)
+                assert rec is not None, (mnem, it, b.hex(), why)
+                msg = acc(rec)
+                assert msg is None, (mnem, it, b.hex(), msg)
+                # parse(render(intent)) = intent
+                txt = R.render(it, R.spell(v, "dec") if v is not None else None)
+                back = R.parse_operand(mnem, txt, {})
+                assert back is not None and back["form"] == it["form"] and back.get("value") == it.get("value"), (mnem, it, txt, back)
+                n += 1
+    # every opcode byte sequence that the table defines decodes, and undefined opcodes do not
+    for op, (names, mode, base) in R.OPC.items():
+        b = (bytes([op >> 8, op & 0xFF]) if op > 0xFF else bytes([op])) + (b"\x12\x00\x00" if mode == "REGPAIR" else b"\x84\x00\x00")
+        rec = R.decode(b, 0)
+        assert names == rec["mnems"], op
+    for op in (0x01, 0x02, 0x05, 0x0B, 0x14, 0x15, 0x18, 0x1B, 0x38, 0x3E, 0x41, 0x87, 0xC7, 0xCD, 0x1000, 0x1130):
+        try:
+            R.decode((bytes([op >> 8, op & 0xFF]) if op > 0xFF else bytes([op])) + b"\x00\x00\x00", 0)
+            raise AssertionError("undefined opcode {:X} decoded".format(op))
+        except R.Illegal:
+            pass
+    for pb in (0x87, 0x8A, 0x8E, 0x8F, 0x90, 0x92, 0xBF):
+        try:
+            R.decode(bytes([0xA6, pb, 0, 0]), 0)
+            raise AssertionError("illegal post-byte {:02X} decoded".format(pb))
+        except R.Illegal:
+            pass
+    return n
+
+
+GOLD = [("JSR", "BDA928"), ("LDX", "8E0E11"), ("LDA", "A680"), ("CMPA", "8100"), ("BEQ", "2712"), ("JSR", "BDA30A"),
+        ("BRA", "20F5"), ("JSR", "AD9FA000"), ("BEQ", "27FA"), ("JMP", "7EA027"), ("LEAX", "308C10"), ("LDY", "10AE8DFF00"),
+        ("PSHS", "3406"), ("TFR", "1F12"), ("LBRA", "16FFFD"), ("LBEQ", "1027FFFC"), ("SWI2", "103F"), ("CMPS", "118C1234"),
+        ("STX", "AF8D0002"), ("STX", "AF9D0002"), ("STX", "AF8C01"), ("STA", "97FE"), ("NEG", "0010"), ("LDB", "E61E")]
+
+
+def check_tape():
+    n = 0
+    files = [dict(name="A", type=2, dtype=0, load=0x1234, exec=0x5678, data=C.pattern(k, pat))
+             for k, pat in ((0, "ramp"), (1, "55"), (255, "m00.p1"), (256, "3c"), (600, "mFF.p2"))]
+    for nl, dl, gap, blank, chunk in itertools.product((0, 1, 128, 300), (0, 1, 128), (None, 0, 5), (0, 128), (1, 100, 255)):
+        for lst in ([], files[:1], files[1:3], files):
+            img = tape.write(lst, nl, dl, gap, blank, chunk)
+            got = tape.parse(img)
+            assert [(f["name"].rstrip().decode(), f["type"], f["dtype"], f["a1"], f["a2"], f["data"]) for f in got] == \
+                   [(f["name"], f["type"], f["dtype"], f["load"], f["exec"], f["data"]) for f in lst]
+            n += 1
+    for bad in (b"\x55\x3c\x01\x02\xaa\xbb\x00\x55", b"\x55\x3c\xff\x00\xff\x55", b"\x00\x3c", b"\x55\x3c\x00\x0f" + bytes(15) + b"\x0f\x55"):
+        try:
+            tape.parse(bad)
+            raise AssertionError("malformed tape accepted: " + bad.hex())
+        except tape.TapeError:
+            pass
+    return n
+
+
+def check_disk():
+    n = 0
+    for chain in ([0], [67], [33, 34], [34, 33], [5, 60, 2], [66, 0, 35]):
+        for kind, slen in (("ml", 10), ("ml", 2304), ("ml", 2305), ("basic", 2303), ("ascii", 4608), ("ascii", 0), ("ml", 4700)):
+            need = slen // 2304 + 1
+            if need > len(chain):
+                continue
+            hdr = {"ml": 10, "basic": 3, "ascii": 0}[kind]
+            if slen < hdr:
+                continue
+            data = C.pattern(slen - hdr, "ramp7")
+            t, d = {"ml": (2, 0), "basic": (0, 0), "ascii": (0, 0xFF)}[kind]
+            img = dskfs.write([{"name": "TST", "ext": "BIN", "type": t, "dtype": d, "stream": dskfs.make_stream(kind, data, 0x1000, 0x2000), "chain": chain}])
+            assert dskfs.fsck(img) == [], (chain, kind, slen, dskfs.fsck(img))
+            f = dskfs.read_files(img)[0]
+            assert f["data"] == data and f["chain"] == chain[:need]
+            if kind == "ml":
+                assert (f["load"], f["exec"]) == (0x1000, 0x2000)
+            n += 1
+    blank = dskfs.write([])
+    assert dskfs.fsck(blank) == [] and len(dskfs.free_granules(blank)) == 68 and len(dskfs.free_slots(blank)) == 72
+    # fsck notices each kind of damage
+    good = bytearray(dskfs.write([{"name": "A", "ext": "B", "type": 2, "dtype": 0, "stream": dskfs.make_stream("ml", bytes(3000), 0, 0), "chain": [1, 2]}]))
+    for name, (off, val) in {"chain": (dskfs.FAT_OFF + 1, 70), "loop": (dskfs.FAT_OFF + 2, 1), "orphan": (dskfs.FAT_OFF + 9, 0xC1),
+                             "dirty": (dskfs.gran_off(50) + 3, 0x00), "stream": (dskfs.gran_off(1), 0x55), "length": (dskfs.FAT_OFF + 2, 0xC1)}.items():
+        b = bytearray(good)
+        b[off] = val
+        assert dskfs.fsck(bytes(b)), "fsck missed damage: " + name
+    assert dskfs.gran_off(0) == 0 and dskfs.gran_off(33) == 33 * 2304 and dskfs.gran_off(34) == 36 * 2304 and dskfs.gran_off(67) == 69 * 2304
+    return n
+
+
+def table_diff():
+    """the two transcriptions of the opcode table (ours from the datasheet, the repository's) side by side"""
+    try:
+        from . import common  # noqa: F401  (puts the repository on sys.path)
+        from cocoasm.instruction import INSTRUCTIONS
+    except Exception as e:        # the selftest must not depend on the repository being importable
+        return "repository table not importable: {}".format(e)
+    diffs = []
+    colmap = {"inh": ["INH"], "imm": ["IMM8", "IMM16", "REGPAIR", "REGLIST"], "dir": ["DIR"], "ind": ["IDX"], "ext": ["EXT"], "rel": ["REL8", "REL16"]}
+    for ins in INSTRUCTIONS:
+        if ins.is_pseudo:
+            continue
+        ours = R.MNEM.get(ins.mnemonic)
+        if ours is None:
+            diffs.append("{}: not in the datasheet table".format(ins.mnemonic))
+            continue
+        for col, modes in colmap.items():
+            theirs = getattr(ins.mode, col)
+            mine = next((ours[m] for m in modes if m in ours), None)
+            if theirs != mine:
+                diffs.append("{}.{}: repository {} vs datasheet {}".format(ins.mnemonic, col, theirs, mine))
+            elif mine is not None:
+                size = getattr(ins.mode, col + "_sz")
+                base = R.OPC[mine][2]
+                if size != base:
+                    diffs.append("{}.{}_sz: repository {} vs datasheet {}".format(ins.mnemonic, col, size, base))
+    missing = sorted(set(R.MNEM) - {i.mnemonic for i in INSTRUCTIONS})
+    if missing:
+        diffs.append("mnemonics missing from the repository: " + " ".join(missing))
+    return "opcode tables agree on every opcode, mode and length" if not diffs else "TABLE DIFFERENCES (informational):\n  " + "\n  ".join(diffs)
+
+
+def main():
+    assert len(R.OPC) == 268 and len(R.MNEM) == 139, (len(R.OPC), len(R.MNEM))
+    for mnem, hx in GOLD:
         rec, why = R.check_statement_bytes(mnem, bytes.fromhex(hx), 0x0E00)
         assert rec is not None, (mnem, hx, why)
-        n += 1
-    assert len(R.OPC) == 268 and len(R.MNEM) == 139, (len(R.OPC), len(R.MNEM))
-    print("selftest ok: {} golden vectors, {} opcodes, {} mnemonics".format(n, len(R.OPC), len(R.MNEM)))
+    n1 = check_decoder()
+    n2 = check_tape()
+    n3 = check_disk()
+    print("selftest ok: {} golden vectors, {} opcodes, {} mnemonics; decoder/encoder/grammar agree on {} intents; "
+          "tape writer/parser on {} streams; disk writer/reader/fsck on {} images".format(len(GOLD), len(R.OPC), len(R.MNEM), n1, n2, n3))
+    print(table_diff())
 
 
 if __name__ == "__main__":
